@@ -5,6 +5,8 @@ package store
 import (
 	"bytes"
 
+	"github.com/cockroachdb/pebble/v2"
+	"github.com/cockroachdb/pebble/v2/vfs"
 	lru "github.com/hashicorp/golang-lru/v2"
 
 	"github.com/canopy-network/canopy/lib"
@@ -152,4 +154,26 @@ func verifDump(s *SMT) (out []VerifNode, err lib.ErrorI) {
 // VerifStoreTreeDump dumps the state-commitment tree of a Store as committed (read back under the prefix Root() wrote it).
 func VerifStoreTreeDump(s *Store) ([]VerifNode, lib.ErrorI) {
 	return verifDump(NewDefaultSMT(NewTxn(s.ss.reader, nil, stateCommitIDPrefix, false, false, true)))
+}
+
+// ---------------------------------------------------------------- re-openable / crashable stores
+
+// VerifOpenStoreOnFS opens (or re-opens) a Store over the given pebble file system with the same options as
+// NewStoreInMemory; the caller keeps the FS, so the same database can be closed and opened again (process restart) or
+// opened from a crash clone of the FS.
+func VerifOpenStoreOnFS(fs vfs.FS, dir string, config lib.Config, log lib.LoggerI) (*Store, lib.ErrorI) {
+	db, err := pebble.Open(dir, &pebble.Options{
+		FS:                    fs,
+		L0CompactionThreshold: 20,
+		L0StopWritesThreshold: 40,
+		FormatMajorVersion:    pebble.FormatColumnarBlocks,
+		Logger:                log,
+		BlockPropertyCollectors: []func() pebble.BlockPropertyCollector{
+			func() pebble.BlockPropertyCollector { return newVersionedPropertyCollector() },
+		},
+	})
+	if err != nil {
+		return nil, ErrOpenDB(err)
+	}
+	return NewStoreWithDB(config, db, nil, log)
 }
